@@ -702,6 +702,53 @@ def valid_now(raw: dict, name: str) -> bool:
             "Hold": act and not raw["holding"], "Unhold": act and raw["holding"]}[name]
 
 
+def gen_overlap(rng) -> dict:
+    """Pause and Hold overlapping, in either order, with the Hold (or the Pause) ending first: by the user, by the
+    timer of a timed method Hold / Pause that expires while an operator pause / error pause / operator hold
+    arrived during its duration; ticks with varied increments after every step, so that a System State that
+    no longer follows the flags, or a clock that moves while the run is still paused / on hold, shows."""
+    T = ["tick", 8, 8, 0]
+
+    def ticks(lo, hi):
+        return [list(rng.choice([T, T, ["tick", 4, 4, 0], ["tick", 2, 16, 0], ["tick", 8, 4, 0]]))
+                for _ in range(rng.randrange(lo, hi + 1))]
+    if rng.random() < 0.45:
+        # a timed command of the method is in effect; the other kind of stop arrives during its duration and the
+        # duration runs out first
+        d = rng.choice([2, 3, 4])
+        cmd = rng.choice(["Hold", "Hold", "Pause"])
+        method = rng.choice([f"{cmd}: {d}s\nMark: b", f"Wait: 0.5s\n{cmd}: {d}s\nMark: b",
+                             f"Block: B\n    {cmd}: {d}s\n    Wait: 30s\n    End block"])
+        ops = [["user", "Start"]] + [list(T) for _ in range(rng.randrange(2, 4))]
+        other = {"Hold": rng.choice(["Pause", "Pause", "errapi"]), "Pause": "Hold"}[cmd]
+        ops += [["errapi"]] if other == "errapi" else [["user", other]]
+        ops += [list(T) for _ in range(d + rng.randrange(1, 4))]      # the duration expires
+        ops += ticks(0, 2)
+        if rng.random() < 0.6:
+            ops += [["user", {"Pause": "Unpause", "errapi": "Unpause", "Hold": "Unhold"}[other]]] + ticks(1, 3)
+        if rng.random() < 0.25:
+            ops += [["user", rng.choice(["Stop", "Restart"])]] + ticks(2, 4)
+        return {"method": method, "ops": ops}
+    method = rng.choice(["Mark: a", "Block: B\n    Mark: x\n    Wait: 30s\n    End block\nMark: y",
+                         "Watch: Run Counter >= 0\n    Wait: 30s", "Wait: 1s\nHold: 2s\nMark: z",
+                         "Wait: 1s\nHold: 3s\nWait: 30s", "Wait: 1s\nPause: 2s\nMark: z",
+                         "Block: B\n    Wait: 1s\n    Hold: 2s\n    Wait: 30s\n    End block"])
+    ops = [["user", "Start"]] + ticks(2, 4)
+    first = rng.choice(["Pause", "Hold", "errapi"])
+    second = {"Pause": "Hold", "Hold": "Pause", "errapi": "Hold"}[first]
+    ops += ([["errapi"]] if first == "errapi" else [["user", first]]) + ticks(1, 3)
+    ops += [["user", second]] + ticks(1, 3)
+    ends = ["Unhold", "Unpause"]
+    if rng.random() < 0.25:
+        ends.reverse()
+    ops += [["user", ends[0]]] + ticks(2, 5)
+    if rng.random() < 0.7:
+        ops += [["user", ends[1]]] + ticks(1, 3)
+    if rng.random() < 0.3:
+        ops += [["user", rng.choice(["Stop", "Restart"])]] + ticks(2, 4)
+    return {"method": method, "ops": ops}
+
+
 def gen_session(rng, length: int, malformed: bool = False, errors: bool = False, sets: bool = True,
                 method: str | None = None, blocks: bool = True) -> dict:
     """Adaptive random session: mostly commands that are valid in the current state, ticks with varied
